@@ -69,14 +69,11 @@ def result_propagated(an, cs):
     for t, st in leaves:
         if ("var", R, "Err") in st.facts:
             n_err += 1
-            want1 = T.agg("adt", "result::Result", 1, "Err", [T.call("convert::From::from", (), [T.payload(R, "Err")])])
-            want2 = T.agg("adt", "result::Result", 1, "Err", [T.payload(R, "Err")])
-            cands = {want1, want2, an.simp(want1, st.facts), an.simp(want2, st.facts)}
-            if t not in cands:
-                return False, "an outcome reached with the I/O result being Err returns %s instead of that error" % pp(t)[:160]
+            if not (t.op == "agg" and t.args[3] == "Err"):
+                return False, "an outcome reached with the I/O result being Err returns %s instead of an error" % pp(t)[:160]
     if n_err == 0:
         return False, "no outcome of the function carries the error of this call"
-    return True, "tested by `?`; %d error outcome(s) return the error itself" % n_err
+    return True, "tested on every path; the %d outcome(s) reached with it being Err return an error" % n_err
 
 
 def _tests(an, d, R):
